@@ -328,7 +328,7 @@ def run_one(ck, prog):
                 for f in ctx.edge_facts(e):
                     if f[0] == "cmp" and f[1] == "Eq":
                         for x, y in ((f[2], f[3]), (f[3], f[2])):
-                            if const_value(y) == exp and reads_word(x, proto_fns):
+                            if const_value(y) == exp and reads_word(x, proto_fns, ctx.prov):
                                 obs_edges.add((e.src, e.dst))
         # remove store blocks & obs edges: wait block must be unreachable from the loop header(s) and entry
         r = ctx.cfg.reachable_from(0, avoid=store_blocks, avoid_edges=obs_edges)
@@ -367,9 +367,10 @@ def run_one(ck, prog):
                       detail=f"try_lock uses `{op.op}`; a weak CAS may fail spuriously while the mutex is free")
 
 
-def reads_word(e, proto_fns):
+def reads_word(e, proto_fns, prov):
     """Expression derives from a read of the word: result of a protocol function, or an atomic op result/payload."""
-    for x in walk(e):
+    from ..engine.prov import walk_deep
+    for x in walk_deep(e, prov):
         if x[0] == "call":
             n = x[1] or ""
             if n in proto_fns or n.startswith("core::sync::atomic::Atomic"):
